@@ -52,6 +52,38 @@ func flattenAppend(v ssa.Value) ([]ssa.Value, bool) {
 	}
 	v = os[0]
 	if call, ok := v.(*ssa.Call); ok {
+		if strings.HasPrefix(calleeName(call.Common()), "slices.Concat") {
+			// slices.Concat(a, b, ...): the variadic argument is a slice literal of the pieces, in order
+			var out []ssa.Value
+			if sl, ok := call.Common().Args[0].(*ssa.Slice); ok {
+				if a, ok := sl.X.(*ssa.Alloc); ok {
+					type el struct {
+						idx int64
+						v   ssa.Value
+					}
+					var els []el
+					for _, ref := range valueReferrers(a) {
+						if ia, ok := ref.(*ssa.IndexAddr); ok {
+							n, _ := constInt(ia.Index)
+							for _, rr := range valueReferrers(ia) {
+								if st, ok := rr.(*ssa.Store); ok && st.Addr == ssa.Value(ia) {
+									els = append(els, el{n, st.Val})
+								}
+							}
+						}
+					}
+					for i := 0; i < len(els); i++ {
+						for _, e := range els {
+							if e.idx == int64(i) {
+								out = append(out, e.v)
+							}
+						}
+					}
+					return out, len(out) > 0
+				}
+			}
+			return nil, false
+		}
 		if bi, ok := call.Call.Value.(*ssa.Builtin); ok && bi.Name() == "append" {
 			base, ok := flattenAppend(call.Call.Args[0])
 			if !ok {
